@@ -12,7 +12,7 @@ import gamma
 
 TOL = 1e-9
 # operations a class does not have: the step is taken in the model only
-NOT_OFFERED = {"UnitQuaternion": {"prod"}, "Twist3": {"pow", "divr"}, "Twist2": {"pow", "divr"}}
+NOT_OFFERED = {"UnitQuaternion": {"prod", "peek-prod"}, "Twist3": {"pow", "divr", "peek-divl"}, "Twist2": {"pow", "divr", "peek-divl"}}
 
 
 def classes():
@@ -95,6 +95,12 @@ def apply(cname, x, call, sigma):
         x = x[call["a"]:call["b"]]
     elif op == "slicerev":
         x = x[::-1]
+    elif op == "peek-inv":
+        res = x.inv()
+    elif op == "peek-prod":
+        res = x.prod()
+    elif op == "peek-divl":
+        res = g / x
     else:
         raise ValueError(op)
     return x, [o for o in (ys, g) if o is not None], res
@@ -153,6 +159,11 @@ def replay(j, pid, cname, hist, sigma=1.0, site_prefix="seq"):
             if not ok:
                 mode = "wrong-value-class-or-length"
                 detail["why"] = why
+            elif op.startswith("peek-"):
+                okp, whyp = same(cname, res, call["val"], sigma)
+                if not okp:
+                    mode = "observed-value-wrong"
+                    detail["why"] = whyp
             elif op == "pop":
                 okp, whyp = same(cname, res, [call["res"]], sigma)
                 if not okp:
